@@ -220,6 +220,12 @@ def monOp (op : String) (args : List String) : Option String :=
     let (sa, _) ← pNat ts
     let amp := match p.ptype with | .stable a => a | .cp => 1
     some (verdict (monSsLp amp p.decimals (p.assets.map (·.amount)) after sb sa))
+  | "mon_farm_close" => do
+    let (remaining, ts) ← pNat args
+    let (ownerGot, ts) ← pInt ts
+    let (fmOut, ts) ← pInt ts
+    let (others, _) ← pInt ts
+    some (if ownerGot == (remaining : Int) && fmOut == (remaining : Int) && others == 0 then "ok" else "viol C11-close-refund")
   | "mon_farm_autoclose" => do
     let (xs, _) ← pRepeat pNat 4 args
     match xs with
